@@ -604,6 +604,7 @@ func checkC16(c *Ctx) {
 	c.Explanation = "Decides the structural agreement that round-tripping and size calculation rest on: (O1) for each of the five v2 structs the writer table (id, TType, protocol write method, Go field, wire name), the reader table (id, protocol read method, Go field), the Read switch and the struct tags agree; write and read methods are the dual of the announced TType; required fields are written unconditionally and checked after reading; Write emits struct begin, every field once in id order, field stop, struct end; list fields write len and every element; the generated client writes message begin, the argument struct, message end and flushes, in that order; (O2) each TCalcTransport write method adds exactly the length it was given and reports it as written, GetCount/ResetCount read/zero the counter, and the type implements TRichTransport; (O3) calculateSize is lock -> Write into the calc protocol -> read the count -> reset the count -> unlock and returns that count; (O4) the report-time fields hold maximal placeholders in the template (shared with C12); (O5-O8) the vendored Compact and Binary protocols: per primitive the writer and the reader agree on byte order, width, scratch-slice length, varint and zig-zag width; header functions write and read the same sets of primitive sequences; zig-zag helpers, varint loops and the compact nibble packing use matching forms/constants; the type-code table is inverted by the reader's switch; string/binary payloads reach the transport whole (copies only under a sufficient bound); the buffered read transport replaces its buffer on Write."
 	c.Explanation += " Added later: (O8) strings and byte slices handed out by ReadString / ReadBinary are copies owned by the decoded structure."
 	c.Explanation += " Added by round 9: (O1 write-errors-from-protocol) every non-nil error a generated Write / writeFieldN returns flows from a protocol call or a nested write."
+	c.Explanation += " Added by round 10: (O1 isset-is-presence) IsSet<F> of a nilable optional field is exactly the nil test of that field, so a set-but-empty list is written and read back as set."
 	c.NotDecided = []string{"decode(encode(x)) == x and byte counts as such", "the vendored protocols beyond the writer/reader agreements of O5-O8 (bool-in-header, compact map header, Skip, chunked string reads)"}
 	for _, t := range []string{"MetricValue", "MetricTag", "Metric", "MetricBatch", "M3EmitMetricBatchV2Args"} {
 		c.checkThriftStruct("O1 writer-reader-table", "m3/thrift/v2", t)
@@ -611,6 +612,8 @@ func checkC16(c *Ctx) {
 	c.checkM3ClientSend("O1 client-send")
 	c.checkThriftErrorDiscipline("O1 error-discipline")
 	c.checkWriteErrorsFromProtocol("O1 write-errors-from-protocol")
+	// round 10: an optional field is written exactly when it is present (non-nil), also when it is empty
+	c.checkIsSetPresence("O1 isset-is-presence", "m3/thrift/v2", 2)
 	c.checkCalcTransport("O2 calc-transport")
 	c.checkCalculateSize("O3 calculate-size")
 	c.checkMaxPlaceholders("O4 max-placeholder")
@@ -1394,4 +1397,91 @@ func blockReaches(a, b *ssa.BasicBlock) bool {
 		}
 	}
 	return false
+}
+
+// checkIsSetPresence: an optional field of a generated struct is written under `if p.IsSetX()` and a reader
+// leaves an absent field nil, so encode/decode preserves "set but empty" only while IsSetX is the presence
+// test itself. For every method IsSet<F>() bool of the package whose field <F> is of a nilable type (slice,
+// map, pointer), the body is one return of `recv.F != nil` (either operand order, or `!(recv.F == nil)`).
+// Fields of a non-nilable type (v2 Metric.Value, a struct) have no presence bit and are not judged.
+func (c *Ctx) checkIsSetPresence(rule, short string, min int) {
+	pk := c.pkg(short)
+	if pk == nil {
+		c.missing(rule, short)
+		return
+	}
+	n := 0
+	for _, f := range pk.Syntax {
+		for _, d := range f.Decls {
+			fd, ok := d.(*ast.FuncDecl)
+			if !ok || fd.Recv == nil || fd.Body == nil || len(fd.Recv.List) != 1 || len(fd.Recv.List[0].Names) != 1 ||
+				!strings.HasPrefix(fd.Name.Name, "IsSet") || fd.Type.Params.NumFields() != 0 || fd.Type.Results.NumFields() != 1 {
+				continue
+			}
+			rt := pk.TypesInfo.TypeOf(fd.Recv.List[0].Type)
+			if p, isPtr := rt.(*types.Pointer); isPtr {
+				rt = p.Elem()
+			}
+			nt, isNamed := rt.(*types.Named)
+			if !isNamed {
+				continue
+			}
+			st, isStruct := nt.Underlying().(*types.Struct)
+			if !isStruct {
+				continue
+			}
+			fname := strings.TrimPrefix(fd.Name.Name, "IsSet")
+			var fld *types.Var
+			for i := 0; i < st.NumFields(); i++ {
+				if st.Field(i).Name() == fname {
+					fld = st.Field(i)
+				}
+			}
+			if fld == nil {
+				continue
+			}
+			switch fld.Type().Underlying().(type) {
+			case *types.Slice, *types.Map, *types.Pointer:
+			default:
+				continue
+			}
+			n++
+			recv := fd.Recv.List[0].Names[0].Name
+			key := short + "." + nt.Obj().Name() + "." + fd.Name.Name
+			isField := func(e ast.Expr) bool {
+				se, isSel := ast.Unparen(e).(*ast.SelectorExpr)
+				if !isSel || se.Sel.Name != fname {
+					return false
+				}
+				id, isId := ast.Unparen(se.X).(*ast.Ident)
+				return isId && id.Name == recv
+			}
+			isNil := func(e ast.Expr) bool {
+				id, isId := ast.Unparen(e).(*ast.Ident)
+				if !isId {
+					return false
+				}
+				_, isNilObj := pk.TypesInfo.Uses[id].(*types.Nil)
+				return isNilObj
+			}
+			cmp := func(e ast.Expr, op token.Token) bool {
+				be, isBin := ast.Unparen(e).(*ast.BinaryExpr)
+				return isBin && be.Op == op && ((isField(be.X) && isNil(be.Y)) || (isNil(be.X) && isField(be.Y)))
+			}
+			good := false
+			if len(fd.Body.List) == 1 {
+				if rs, isRet := fd.Body.List[0].(*ast.ReturnStmt); isRet && len(rs.Results) == 1 {
+					e := ast.Unparen(rs.Results[0])
+					if cmp(e, token.NEQ) {
+						good = true
+					} else if un, isUn := e.(*ast.UnaryExpr); isUn && un.Op == token.NOT && cmp(un.X, token.EQL) {
+						good = true
+					}
+				}
+			}
+			c.check(good, rule, key, fd.Pos(), fd.Name.Name+" is the nil test of its field: a field that is set is written, also when it is empty",
+				fd.Name.Name+" is not `"+recv+"."+fname+" != nil`: the writer skips a field that is set (e.g. an empty list), so the decoded structure differs from the encoded one")
+		}
+	}
+	c.floor(rule, n, min)
 }
